@@ -3,6 +3,9 @@
 // valid(args), written from the statement, decides what must happen.
 #include <bspline/interpolation/interpolation.h>
 
+#include <iterator>
+#include <sstream>
+
 #include "lib.h"
 #include "scalar.h"
 
@@ -305,6 +308,65 @@ struct V {
   }
 
   // ----------------------------------------------------- linearCombination
+  // iterator ranges whose value type is not T, and single-pass input
+  // iterators: validity is decided on the points the grid actually stores
+  void gridForeignIterators(Rng &g) {
+    if constexpr (!ST<T>::exact) {
+      using Wide = std::conditional_t<std::is_same_v<T, long double>, long double,
+                                      std::conditional_t<std::is_same_v<T, double>,
+                                                         long double, double>>;
+      // strictly increasing in the wider type; neighbours may collapse in T
+      std::vector<Wide> w;
+      Wide x = (Wide)g.range(-4, 4);
+      const size_t n = (size_t)g.range(2, 6);
+      const size_t tight = g.below(n);  // position of a too-small step (or none)
+      const bool collapse = g.chance(1, 2) && !std::is_same_v<T, Wide>;
+      for (size_t i = 0; i < n; i++) {
+        w.push_back(x);
+        if (collapse && i == tight)
+          x += (Wide)std::numeric_limits<T>::epsilon() / 1024;  // lost in T
+        else
+          x += (Wide)1 / 4;
+      }
+      std::vector<T> stored(w.begin(), w.end());
+      const bool valid = stored.size() >= 2 && strictlyIncreasing(stored);
+      std::string msg;
+      std::optional<Grid<T>> made;
+      judge("grid-iterators-other-value-type", valid,
+            attempt([&] { made.emplace(w.begin(), w.end()); }, &msg),
+            "Grid<" + std::string(ST<T>::name()) + "> from a range of a wider type, stored as " +
+                seqStr(stored), msg);
+      if (made && !strictlyIncreasing(std::vector<T>(made->begin(), made->end())))
+        c.violation("C10", "grid-invariant/foreign-iterator-range",
+                    "live grid " + seqStr(std::vector<T>(made->begin(), made->end())));
+      c.count(collapse ? "grid-foreign:collapsing" : "grid-foreign:distinct");
+    }
+    // single-pass input iterators (std::istream_iterator)
+    {
+      const size_t n = (size_t)g.range(0, 5);
+      std::ostringstream os;
+      std::vector<T> expect;
+      for (size_t i = 0; i < n; i++) {
+        os << (long)i * 2 - 3 << ' ';
+        expect.push_back(mk<T>((long)i * 2 - 3));
+      }
+      std::istringstream is(os.str());
+      std::string msg;
+      std::optional<Grid<T>> made;
+      if constexpr (!ST<T>::exact) {
+        judge("grid-input-iterators", n >= 2, attempt([&] {
+                made.emplace(std::istream_iterator<T>(is), std::istream_iterator<T>());
+              }, &msg), "Grid from std::istream_iterator over " + std::to_string(n) +
+                            " increasing numbers", msg);
+        if (made && (made->size() != n ||
+                     !std::equal(made->begin(), made->end(), expect.begin())))
+          c.violation("C11", "grid-input-iterators/wrong-points",
+                      "grid of " + std::to_string(made->size()) + " points from " +
+                          std::to_string(n) + " numbers");
+      }
+    }
+  }
+
   void lincomb() {
     {
       std::string msg;
@@ -426,6 +488,7 @@ void runCase(Ctx &c) {
       break;
     case 5:
       v.lincomb();
+      v.gridForeignIterators(g);
       break;
     case 6:
       v.template interpOrder<1>(g);
